@@ -71,14 +71,19 @@ def TagNR (prov : α → Prov σ) (sn : σ) (c : Conn α) (p : α) (ctx : Option
 (`born` of the stream the request is registered on), resp. says "detached" exactly when the context belongs to
 no request, resp. "server-initiated" for a write without context or under a `subscriptions/listen` request.
 Nothing is said about where the write goes. -/
-def WellTagged (prov : α → Prov σ) (sn : σ) (c : Conn α) : Label α → Prop
-  | .write (.resp r p) _ _ =>
+def WellTaggedW (prov : α → Prov σ) (sn : σ) (c : Conn α) : Msg α → Option Nat → Prop
+  | .resp r p, _ =>
     match prov p with
     | .resp id ps req post => id = r ∧ req = r ∧ ps = sn ∧ ∀ sid, c.reqStreams r = some sid → c.born sid = some post
     | .initResp id => id = r
     | _ => False
-  | .write (.notif p) ctx _ => TagNR prov sn c p ctx
-  | .write (.call p) ctx _ => TagNR prov sn c p ctx
+  | .notif p, ctx => TagNR prov sn c p ctx
+  | .call p, ctx => TagNR prov sn c p ctx
+
+/-- (for the split write the tag is judged at the routing section, where the request is looked up) -/
+def WellTagged (prov : α → Prov σ) (sn : σ) (c : Conn α) : Label α → Prop
+  | .write msg ctx _ => WellTaggedW prov sn c msg ctx
+  | .wroute msg ctx _ => WellTaggedW prov sn c msg ctx
   | _ => True
 
 theorem route_related_some {c : Conn α} {msg : Msg α} {ctx : Option Nat} {s : Stream α} {r : Nat}
@@ -150,31 +155,35 @@ theorem route_tagNR {prov : α → Prov σ} {sn : σ} {c : Conn α} (h10 : Inv10
   · exact absurd hl id
 
 /-- a well-tagged write lands on a stream its tag is consistent with -/
+theorem route_tagOK_W {prov : α → Prov σ} {sn : σ} {c : Conn α} (h10 : Inv10 c) (msg : Msg α) (ctx : Option Nat)
+    (hl : WellTaggedW prov sn c msg ctx) : ∀ s, route c msg ctx = some s → TagOK prov sn c s.id ⟨msg, ctx⟩ := by
+  intro s hr
+  cases msg with
+  | resp r p =>
+    have hrel : related c (.resp r p) ctx = some r := rfl
+    have hreq := route_related_some hrel hr
+    simp only [WellTaggedW] at hl
+    unfold TagOK
+    simp only [payloadOf]
+    split at hl
+    · rename_i id ps req post hpv
+      rw [hpv]
+      obtain ⟨h1, h2, h3, h4⟩ := hl
+      exact ⟨by rw [h1, h2], h3, h4 s.id hreq, ⟨p, by rw [h1]⟩⟩
+    · rename_i id hpv
+      rw [hpv]
+      exact ⟨p, by rw [hl]⟩
+    · exact absurd hl id
+  | notif p =>
+    exact route_tagNR h10 p rfl (by intros; simp) (by simp [related]) hl s hr
+  | call p =>
+    exact route_tagNR h10 p rfl (by intros; simp) (by simp [related]) hl s hr
+
 theorem route_tagOK {prov : α → Prov σ} {sn : σ} {c : Conn α} (h10 : Inv10 c) (l : Label α) (hl : WellTagged prov sn c l) :
     RouteOK (TagOK prov sn) c l := by
   cases l with
-  | write msg ctx ctxNew =>
-    intro s hr
-    cases msg with
-    | resp r p =>
-      have hrel : related c (.resp r p) ctx = some r := rfl
-      have hreq := route_related_some hrel hr
-      simp only [WellTagged] at hl
-      unfold TagOK
-      simp only [payloadOf]
-      split at hl
-      · rename_i id ps req post hpv
-        rw [hpv]
-        obtain ⟨h1, h2, h3, h4⟩ := hl
-        exact ⟨by rw [h1, h2], h3, h4 s.id hreq, ⟨p, by rw [h1]⟩⟩
-      · rename_i id hpv
-        rw [hpv]
-        exact ⟨p, by rw [hl]⟩
-      · exact absurd hl id
-    | notif p =>
-      exact route_tagNR h10 p rfl (by intros; simp) (by simp [related]) hl s hr
-    | call p =>
-      exact route_tagNR h10 p rfl (by intros; simp) (by simp [related]) hl s hr
+  | write msg ctx ctxNew => exact route_tagOK_W h10 msg ctx hl
+  | wroute msg ctx ctxNew => exact route_tagOK_W h10 msg ctx hl
   | post _ _ _ _ => trivial
   | cut _ => trivial
   | wfail _ => trivial
@@ -182,40 +191,45 @@ theorem route_tagOK {prov : α → Prov σ} {sn : σ} {c : Conn α} (h10 : Inv10
   | sclose _ _ => trivial
   | «end» => trivial
   | evict _ _ => trivial
+  | wdeliver _ => trivial
 
 def WellTaggedRun (prov : α → Prov σ) (sn : σ) : Conn α → List (Label α) → Prop
   | _, [] => True
   | c, l :: ls => WellTagged prov sn c l ∧ WellTaggedRun prov sn (step c l) ls
 
-theorem inv10_runFrom {c : Conn α} (hw : Inv c) (h : Inv10 c) (ls : List (Label α)) : Inv10 (run c ls) := by
+theorem inv10_runFrom {c : Conn α} (hw : Inv c) (h : Inv10 c) (hpr : PendRouted c) (ls : List (Label α)) :
+    Inv10 (run c ls) ∧ PendRouted (run c ls) := by
   induction ls generalizing c with
-  | nil => exact h
-  | cons l t ih => simp only [run, List.foldl_cons]; exact ih (inv_step hw l) (inv10_step hw h l)
+  | nil => exact ⟨h, hpr⟩
+  | cons l t ih => simp only [run, List.foldl_cons]; exact ih (inv_step hw l) (inv10_step hw h hpr l) (pendRouted_step h hpr l)
 
 theorem invBorn_runFrom {c : Conn α} (hw : Inv c) (h : InvBorn c) (ls : List (Label α)) : InvBorn (run c ls) := by
   induction ls generalizing c with
   | nil => exact h
   | cons l t ih => simp only [run, List.foldl_cons]; exact ih (inv_step hw l) (invBorn_step hw h l)
 
-theorem invJ_runFrom {c : Conn α} (hw : Inv c) (h10 : Inv10 c) (hb : InvBorn c) (h : InvJ c) (ls : List (Label α)) : InvJ (run c ls) := by
+theorem invJ_runFrom {c : Conn α} (hw : Inv c) (h10 : Inv10 c) (hpr : PendRouted c) (hb : InvBorn c) (h : InvJ c) (ls : List (Label α)) :
+    InvJ (run c ls) := by
   induction ls generalizing c with
   | nil => exact h
   | cons l t ih =>
     simp only [run, List.foldl_cons]
-    exact ih (inv_step hw l) (inv10_step hw h10 l) (invBorn_step hw hb l) (invJ_step hw h10 hb h l)
+    exact ih (inv_step hw l) (inv10_step hw h10 hpr l) (pendRouted_step h10 hpr l) (invBorn_step hw hb l) (invJ_step hw h10 hb h l)
 
-theorem tagged_runFrom {prov : α → Prov σ} {sn : σ} {c : Conn α} (hw : Inv c) (h10 : Inv10 c) (hb : InvBorn c)
-    (h : InvMsg (TagOK prov sn) c) (ls : List (Label α)) (hl : WellTaggedRun prov sn c ls) : InvMsg (TagOK prov sn) (run c ls) := by
+theorem tagged_runFrom {prov : α → Prov σ} {sn : σ} {c : Conn α} (hw : Inv c) (h10 : Inv10 c) (hpr : PendRouted c) (hb : InvBorn c)
+    (h : InvMsg (TagOK prov sn) c) (hpp : PendP (TagOK prov sn) c) (ls : List (Label α)) (hl : WellTaggedRun prov sn c ls) :
+    InvMsg (TagOK prov sn) (run c ls) ∧ PendP (TagOK prov sn) (run c ls) := by
   induction ls generalizing c with
-  | nil => exact h
+  | nil => exact ⟨h, hpp⟩
   | cons l t ih =>
     simp only [run, List.foldl_cons]
-    exact ih (inv_step hw l) (inv10_step hw h10 l) (invBorn_step hw hb l)
-      (invMsg_step (tagOK_pmono prov sn) hw h10 hb h l (route_tagOK h10 l hl.1)) hl.2
+    exact ih (inv_step hw l) (inv10_step hw h10 hpr l) (pendRouted_step h10 hpr l) (invBorn_step hw hb l)
+      (invMsg_step (tagOK_pmono prov sn) hw h10 hb h hpp l (route_tagOK h10 l hl.1))
+      (pendP_step (tagOK_pmono prov sn) h10 hb hpp l (route_tagOK h10 l hl.1)) hl.2
 
 /-- **tags are consistent with where messages sit**, on every well-tagged label list -/
 theorem tagged_run (prov : α → Prov σ) (sn : σ) (cfg : Cfg) (ls : List (Label α)) (hl : WellTaggedRun prov sn (init cfg) ls) :
     InvMsg (TagOK prov sn) (run (init cfg) ls) :=
-  tagged_runFrom (inv_init cfg) (inv10_init cfg) (invBorn_init cfg) (invMsg_init cfg) ls hl
+  (tagged_runFrom (inv_init cfg) (inv10_init cfg) (pendRouted_init cfg) (invBorn_init cfg) (invMsg_init cfg) (pendP_init cfg) ls hl).1
 
 end Resume
